@@ -201,23 +201,26 @@ impl<T: Write + Seek> ShapeWriter<T> {
             return Ok(());
         }
 
-        if self.header.bbox.max.m == f64::NEG_INFINITY && self.header.bbox.min.m == f64::INFINITY {
-            self.header.bbox.max.m = 0.0;
-            self.header.bbox.min.m = 0.0;
+        // Ranges of dimensions no shape has contributed to (yet) are written as 0.
+        // This is done on a copy: the running box keeps growing from later writes.
+        let mut shp_header = self.header;
+        if shp_header.bbox.max.m == f64::NEG_INFINITY && shp_header.bbox.min.m == f64::INFINITY {
+            shp_header.bbox.max.m = 0.0;
+            shp_header.bbox.min.m = 0.0;
         }
 
-        if self.header.bbox.max.z == f64::NEG_INFINITY && self.header.bbox.min.z == f64::INFINITY {
-            self.header.bbox.max.z = 0.0;
-            self.header.bbox.min.z = 0.0;
+        if shp_header.bbox.max.z == f64::NEG_INFINITY && shp_header.bbox.min.z == f64::INFINITY {
+            shp_header.bbox.max.z = 0.0;
+            shp_header.bbox.min.z = 0.0;
         }
 
         self.shp_dest.seek(SeekFrom::Start(0))?;
-        self.header.write_to(&mut self.shp_dest)?;
+        shp_header.write_to(&mut self.shp_dest)?;
         self.shp_dest.seek(SeekFrom::End(0))?;
         self.shp_dest.flush()?;
 
         if let Some(shx_dest) = &mut self.shx_dest {
-            let mut shx_header = self.header;
+            let mut shx_header = shp_header;
             shx_header.file_length = header::HEADER_SIZE / 2
                 + ((self.rec_num - 1) as i32 * 2 * size_of::<i32>() as i32 / 2);
             shx_dest.seek(SeekFrom::Start(0))?;
